@@ -9,5 +9,8 @@ Definition encq (q : Q) : list Z := let r := Qred q in [Qnum r; Zpos (Qden r)].
 Definition encvec (n : nat) (l : vec) : list Z := flat_map (fun k => encq (get l k)) (seq 0 n).
 Definition encv (na nn : nat) (v : vqip) : list Z :=
   encq (vol v) ++ encvec na (adds v) ++ encvec nn (nons v).
+(* canonical: the qualities of a flux with zero volume are unobservable *)
+Definition encvc (na nn : nat) (v : vqip) : list Z :=
+  if Qeq_bool (vol v) 0 then encv na nn (mkV (vol v) (adds v) []) else encv na nn v.
 Definition encb (b : bool) : list Z := [if b then 1%Z else 0%Z].
 Definition encn (n : nat) : list Z := [Z.of_nat n].
